@@ -22,6 +22,14 @@ per deviation in that subset, each with its own narrow sig):
   C48.signature_mismatch.default_port_kept        the URL spells out :80 on http or :443 on https
   C48.signature_mismatch.oauth10_key_not_encoded  _oauth_signature (1.0) and a secret contains a non-unreserved character
   C48.signature_mismatch.path_semicolon_dropped   the last path segment contains ';' (urlparse splits it off as "params")
+  C48.signature_mismatch.userinfo_kept            the URL carries userinfo (`user:pw@host`), which Tornado keeps (lower-cased)
+The first four are repaired in the tree (their entries are `fixed`), userinfo_kept is open.
+
+URL shapes: besides scheme/host/port/path the request URL may carry a query string (built from a subset of the
+very parameters that are also passed in `parameters`, as Tornado documents: "parameters should include all POST
+arguments and query string arguments"), an empty `?`, a fragment, a trailing `#`, path parameters (`;v=1`) and
+userinfo.  The reference never looks at the URL text: base string URI = scheme://host[:port]path built from the
+generated parts, so query, fragment and userinfo must not influence the signature.
 Any other difference -- including one of these features combined with anything else that is wrong -- fails with
 the generic sig C48.signature_mismatch and is a VIOLATION.
 
@@ -34,6 +42,10 @@ Sensitivity (quick tier, seed 1, scratch copy of /repo/tornado):
   M6 `netloc.lower()` dropped in both functions                            caught  (host EXAMPLE.COM)
   M7 1.0 base string elements quoted with safe="~+"                        caught  (path "/a+b")
   M8 1.0 key: no '&' when there is no token                                caught
+  M9 base string URI built with `parts._replace(netloc=..., fragment="").geturl()` (keeps the URL's query; found by
+     independent mutation testing, previously missed: no generated URL had a query)   caught at every seed by the finite
+     "grid" part (first case whose URL carries `?a=b&c=d%20e`) -> C48.signature_mismatch, and by the Hypothesis part
+     (query_mode all/some/plus/empty, fragments, trailing '#').
   A mutant is also reported when the input carries one of the four known-deviation features, because the
   bytes are then no longer reproduced by "RFC + exactly those deviations" (seen with M1, M2, M4 on the replays).
   Combined repair proposed in findings_inbox/C48-rfc5849-deviations.md: 3006/3006 cases match the RFC, 0 exclusions.
@@ -50,9 +62,10 @@ from tornado import auth
 PROPERTY = "C48"
 READY = True
 RULE = (
+    "finite grid (2 functions x 3 scheme/port x 5 paths x 5 query shapes x 3 fragment shapes x userinfo x 3 parameter sets) + "
     "Hypothesis: fn in {1.0, 1.0a} x consumer/token secret (absent token too) x method in any case x URL parts "
     "(mixed-case http/https, mixed-case host pool incl. IPv6 literal, port none/default/non-default, path of "
-    "unreserved, %XX, '~', sub-delims, empty) x 0-8 parameters whose names and values are drawn from unreserved, "
+    "unreserved, %XX, '~', sub-delims, empty; optional query string repeating the parameters, empty '?', fragment, '#', userinfo) x 0-8 parameters whose names and values are drawn from unreserved, "
     "reserved (& = + / % ~ space ...) and non-ASCII fragments, values also ints.  non-trivial = a secret, name or "
     "value contains a reserved or non-ASCII character, or the URL has upper-case letters or an explicit port; "
     "distinct = SHA-1 of the case"
@@ -60,7 +73,7 @@ RULE = (
 ASSUMPTIONS = [
     "the reference implementation of RFC 5849 sections 3.4.1-3.4.2 and 3.6 written in this module is correct "
     "(it reproduces the RFC's own worked example, checked on every run)",
-    "URLs carry no query, fragment or userinfo (Tornado's callers pass request parameters separately)",
+    "when the URL carries a query string, the same arguments are also passed in `parameters` (Tornado's documented calling convention); the URL query itself is never part of the base string URI",
     "parameter values are str or int; parameter names are str; 'oauth_signature' itself is never a parameter",
 ]
 TECHNIQUE = "property-based testing (Hypothesis) against an independent reference implementation of RFC 5849 section 3.4"
@@ -75,6 +88,7 @@ SIG_NAME = "C48.signature_mismatch.param_name_not_encoded"
 SIG_PORT = "C48.signature_mismatch.default_port_kept"
 SIG_KEY10 = "C48.signature_mismatch.oauth10_key_not_encoded"
 SIG_SEMI = "C48.signature_mismatch.path_semicolon_dropped"
+SIG_USERINFO = "C48.signature_mismatch.userinfo_kept"
 
 UNRESERVED = frozenset(b"ABCDEFGHIJKLMNOPQRSTUVWXYZabcdefghijklmnopqrstuvwxyz0123456789-._~")
 
@@ -111,6 +125,8 @@ def reference(case, deviations=frozenset(), slash_for_empty_path=False):
     authority = host
     if port is not None and (port != default or "port" in deviations):
         authority += ":%d" % port
+    if "userinfo" in deviations and case.get("userinfo") is not None:
+        authority = case["userinfo"].lower() + "@" + authority
     uri = scheme + "://" + authority + path
     pairs = [(n, str(v)) for n, v in case["params"]]
     if "name" in deviations:
@@ -184,7 +200,38 @@ path_semi_inner = st.builds(lambda semi, p: "/" + semi + p, st.sampled_from(PATH
 path_s = st.one_of(*([path_plain] * 10 + [st.just("/"), st.just("/"), st.just(""), path_semi, path_semi_inner]))
 METHODS = ["GET", "POST", "get", "post", "Put", "delete", "PATCH", "head", "oPtIoNs"]
 
+QUERY_MODES = [None, None, None, None, "all", "all", "some", "plus", "empty"]
+FRAGMENTS = [None, None, None, None, None, None, "", "frag", "a=b&c=d", "/x?y=1"]
+USERINFOS = [None] * 11 + ["user", "User:Pw"]
+
+
+def build_url(case):
+    """The request URL text handed to Tornado (the reference never sees it)."""
+    url = case["scheme"] + "://"
+    if case.get("userinfo") is not None:
+        url += case["userinfo"] + "@"
+    url += case["host"] + (":%d" % case["port"] if case["port"] is not None else "") + case["path"]
+    mode = case.get("query_mode")
+    if mode is not None:
+        pairs = [(n, str(v)) for n, v in case["params"]]
+        if mode == "some":
+            pairs = pairs[::2]
+        if mode == "empty":
+            pairs = []
+        if mode == "plus":
+            q = "&".join("%s=%s" % (enc(n).replace("%20", "+"), enc(v).replace("%20", "+")) for n, v in pairs)
+        else:
+            q = "&".join("%s=%s" % (enc(n), enc(v)) for n, v in pairs)
+        url += "?" + q
+    if case.get("fragment") is not None:
+        url += "#" + case["fragment"]
+    return url
+
+
 case_s = st.fixed_dictionaries({
+    "query_mode": st.sampled_from(QUERY_MODES),
+    "fragment": st.sampled_from(FRAGMENTS),
+    "userinfo": st.sampled_from(USERINFOS),
     "fn": st.sampled_from(["1.0", "1.0a"]),
     "consumer_secret": secret_s,
     "token_secret": st.one_of(st.none(), secret_s, secret_s),
@@ -199,7 +246,7 @@ case_s = st.fixed_dictionaries({
 
 def run_case(ctx, case):
     fn = auth._oauth_signature if case["fn"] == "1.0" else auth._oauth10a_signature
-    url = case["scheme"] + "://" + case["host"] + (":%d" % case["port"] if case["port"] is not None else "") + case["path"]
+    url = build_url(case)
     consumer = {"key": "consumer-key", "secret": case["consumer_secret"]}
     token = None if case["token_secret"] is None else {"key": "token-key", "secret": case["token_secret"]}
     params = {n: v for n, v in case["params"]}
@@ -224,6 +271,13 @@ def run_case(ctx, case):
         labels.add("default_port")
     if f_secret:
         labels.add("reserved_in_secret_v10" if case["fn"] == "1.0" else "reserved_in_secret_v10a")
+    f_userinfo = case.get("userinfo") is not None
+    if f_userinfo:
+        labels.add("url_has_userinfo")
+    if case.get("query_mode") is not None:
+        labels.add("url_has_query" if "?" + "#" not in url + "#" and not url.split("#")[0].endswith("?") else "url_has_empty_query")
+    if case.get("fragment") is not None:
+        labels.add("url_has_fragment" if case["fragment"] else "url_trailing_hash")
     if f_semi:
         labels.add("semicolon_in_last_path_segment")
     elif ";" in case["path"]:
@@ -273,11 +327,13 @@ def run_case(ctx, case):
         present.add("key10")
     if f_semi:
         present.add("semi")
+    if f_userinfo:
+        present.add("userinfo")
     want = sorted(refs(frozenset()))[0]
     detail["rfc5849"] = want
     # the smallest set of known deviations (among those whose trigger is present) that reproduces the bytes;
     # after a partial repair of Tornado only the unrepaired ones are needed
-    order = ("name", "port", "key10", "semi")
+    order = ("name", "port", "key10", "semi", "userinfo")
     cands = [d for d in order if d in present]
     explaining = None
     for size in range(1, len(cands) + 1):
@@ -288,7 +344,7 @@ def run_case(ctx, case):
         if explaining:
             break
     if explaining:
-        sigs = {"name": SIG_NAME, "port": SIG_PORT, "key10": SIG_KEY10, "semi": SIG_SEMI}
+        sigs = {"name": SIG_NAME, "port": SIG_PORT, "key10": SIG_KEY10, "semi": SIG_SEMI, "userinfo": SIG_USERINFO}
         for dev in explaining:
             labels.add("deviates_" + dev)
             ctx.fail("C48.signature_mismatch", dict(detail, root_cause=dev, explained_by=list(explaining)), sig=sigs[dev])
@@ -298,9 +354,29 @@ def run_case(ctx, case):
     ctx.note(case, labels, nontrivial)
 
 
-PARTS = {"main": run_case}
+# ------------------------------------------------------------------------------------ finite grid
+GRID_PARAMS = [[], [("a", "b"), ("c", "d e")], [("oauth_nonce", "n1"), ("status", "Hello Ladies + Gentlemen, a signed OAuth request!"),
+                                                   ("ids[]", "1"), ("z", 5)]]
+
+
+def grid_cases():
+    """URL shapes x both functions, identical at every seed."""
+    for fn in ("1.0", "1.0a"):
+        for scheme, port in (("http", None), ("HTTPS", 443), ("http", 8080)):
+            for path in ("", "/", "/p", "/a;v=1", "/r%20v/X"):
+                for query_mode in (None, "all", "some", "plus", "empty"):
+                    for fragment in (None, "", "frag"):
+                        for userinfo in (None, "User:Pw"):
+                            for params in GRID_PARAMS:
+                                yield {"fn": fn, "consumer_secret": "c s&", "token_secret": "t/s", "method": "post", "scheme": scheme,
+                                       "host": "Example.COM", "port": port, "path": path, "params": params,
+                                       "query_mode": query_mode, "fragment": fragment, "userinfo": userinfo}
+
+
+PARTS = {"main": run_case, "grid": run_case}
 
 
 def main(ctx):
     ctx.run_replays(PARTS)
+    ctx.enumerate(grid_cases(), run_case, name="grid")
     ctx.explore(case_s, run_case, ctx.n(3000, 300000), name="main")
